@@ -111,7 +111,7 @@ def _float(lib, c):
 
 @subject("string", [("codec", [("UTF-8", None), ("US-ASCII", None), ("UTF-16", "mostSignificantByteFirst"), ("UTF-16", "leastSignificantByteFirst"),
                                ("UTF-16LE", None), ("UTF-32BE", None)]),
-                    ("length", ["fixed", "ref-cal", "ref-raw", "ref-adj-8-0", "ref-adj-8--8", "ref-adj-1-3", "lookup"]),
+                    ("length", ["fixed", "ref-cal", "ref-raw", "ref-adj-8-0", "ref-adj-8--8", "ref-adj-1-3", "ref-adj-1-0", "ref-adj-0-24", "lookup"]),
                     ("delim", ["none", "term", "lead"]), ("unit", [None, "txt"])])
 def _string(lib, c):
     codec, order = c["codec"]
@@ -141,7 +141,8 @@ def _string(lib, c):
     return [("LENF", lenf), ("SUBJ", lib.parameter_types.StringParameterType("SUBJ_T", lib.encodings.StringDataEncoding(**kw), unit=c["unit"]))]
 
 
-@subject("binary", [("length", ["fixed", "fixed-odd", "ref-cal", "ref-raw", "ref-adj-8-0", "ref-adj-3--2", "ref-adj-0-16", "lookup"]), ("unit", [None, "raw"])])
+@subject("binary", [("length", ["fixed", "fixed-odd", "ref-cal", "ref-raw", "ref-adj-8-0", "ref-adj-3--2", "ref-adj-0-16", "ref-adj-1-5", "ref-adj-1-0", "ref-adj--1-12", "lookup"]),
+                    ("unit", [None, "raw"])])
 def _binary(lib, c):
     ln = c["length"]
     kw = {}
